@@ -10,28 +10,53 @@ import (
 	"time"
 )
 
+// Solver drives one long-lived SMT solver process (z3 -in by default) with
+// push/pop aligned to the path condition of the state being explored.
 type Solver struct {
+	bin     []string
 	cmd     *exec.Cmd
 	in      io.WriteCloser
 	out     *bufio.Reader
 	stack   []*Term // asserted path condition (one push level each)
 	ufs     map[string]bool
+	defd    map[int]bool
 	Queries int
+	Sat     int
+	Unsat   int
+	Unknown int
 	Time    time.Duration
+	MaxQ    time.Duration
 	log     io.Writer
+	timeout int // ms per query
+	lastErr string
 }
 
-func NewSolver() *Solver {
-	cmd := exec.Command("z3", "-in", "-smt2")
+func NewSolver(bin []string, timeoutMs int) *Solver {
+	s := &Solver{bin: bin, timeout: timeoutMs}
+	s.start()
+	return s
+}
+
+func (s *Solver) start() {
+	cmd := exec.Command(s.bin[0], s.bin[1:]...)
 	in, _ := cmd.StdinPipe()
 	out, _ := cmd.StdoutPipe()
 	cmd.Stderr = cmd.Stdout
 	if err := cmd.Start(); err != nil {
 		panic(err)
 	}
-	s := &Solver{cmd: cmd, in: in, out: bufio.NewReader(out), ufs: map[string]bool{}}
+	s.cmd, s.in, s.out = cmd, in, bufio.NewReaderSize(out, 1<<16)
+	s.ufs = map[string]bool{}
+	s.defd = map[int]bool{}
+	s.stack = nil
 	s.send("(set-option :print-success false)")
-	return s
+	if strings.Contains(s.bin[0], "z3") {
+		if s.timeout > 0 {
+			s.send(fmt.Sprintf("(set-option :timeout %d)", s.timeout))
+		}
+	} else {
+		s.send("(set-logic ALL)")
+	}
 }
 
 func (s *Solver) send(l string) {
@@ -41,22 +66,20 @@ func (s *Solver) send(l string) {
 	io.WriteString(s.in, l+"\n")
 }
 
-// define makes sure t (and its children) are defined at level 0.
-// Definitions are emitted as define-fun at current level; to keep them global we
-// always define before any push by popping everything first if needed.
 func (s *Solver) collect(t *Term, out *[]*Term) {
-	if t.defd || t.Op == "const" {
+	if t.Op == "const" || s.defd[t.id] {
 		return
 	}
 	for _, a := range t.Args {
 		s.collect(a, out)
 	}
-	if !t.defd {
-		t.defd = true
+	if !s.defd[t.id] {
+		s.defd[t.id] = true
 		*out = append(*out, t)
 	}
 }
 
+// ensure declares/defines t and its sub-terms at solver level 0.
 func (s *Solver) ensure(ts ...*Term) {
 	var todo []*Term
 	for _, t := range ts {
@@ -115,10 +138,11 @@ func (s *Solver) readLine() string {
 	return strings.TrimSpace(l)
 }
 
-// Check returns "sat","unsat","unknown"
+// Check returns "sat","unsat","unknown". Any "(error" line from the solver
+// makes the answer "unknown" (and is remembered in lastErr): an answer given
+// after a rejected assertion is not trusted.
 func (s *Solver) Check(pc []*Term, extra *Term) string {
 	t0 := time.Now()
-	defer func() { s.Time += time.Since(t0); s.Queries++ }()
 	if extra != nil {
 		s.ensure(extra)
 	}
@@ -128,57 +152,110 @@ func (s *Solver) Check(pc []*Term, extra *Term) string {
 		s.send(fmt.Sprintf("(assert %s)", extra.ref()))
 	}
 	s.send("(check-sat)")
-	r := s.readLine()
-	for strings.HasPrefix(r, "(error") || r == "" {
-		if strings.HasPrefix(r, "(error") {
-			panic("solver error: " + r)
+	s.send("(echo \"#done\")")
+	r := ""
+	bad := false
+	for {
+		l := s.readLine()
+		if l == "#done" || l == "\"#done\"" {
+			break
 		}
-		r = s.readLine()
+		if strings.HasPrefix(l, "(error") {
+			bad = true
+			s.lastErr = l
+			continue
+		}
+		if l == "sat" || l == "unsat" || l == "unknown" || l == "timeout" {
+			r = l
+		}
+	}
+	if bad || r == "" || r == "timeout" {
+		r = "unknown"
 	}
 	if extra != nil && r != "sat" {
 		s.send("(pop 1)")
 	}
 	if extra != nil && r == "sat" {
-		// leave pushed so caller may get model; mark by pushing onto stack
+		// leave pushed so the caller may get a model; track it on the stack
 		s.stack = append(s.stack, extra)
+	}
+	d := time.Since(t0)
+	s.Time += d
+	if d > s.MaxQ {
+		s.MaxQ = d
+	}
+	s.Queries++
+	switch r {
+	case "sat":
+		s.Sat++
+	case "unsat":
+		s.Unsat++
+	default:
+		s.Unknown++
 	}
 	return r
 }
 
-// Model returns values for the given vars after a sat Check.
-func (s *Solver) Model(vars []*Term) map[string]uint64 {
-	m := map[string]uint64{}
-	for _, v := range vars {
-		if !v.defd {
+func parseVal(val string) (uint64, bool) {
+	switch {
+	case strings.HasPrefix(val, "#x"):
+		u, err := strconv.ParseUint(val[2:], 16, 64)
+		return u, err == nil
+	case strings.HasPrefix(val, "#b"):
+		u, err := strconv.ParseUint(val[2:], 2, 64)
+		return u, err == nil
+	case val == "true":
+		return 1, true
+	case val == "false":
+		return 0, true
+	case strings.HasPrefix(val, "(_ bv"):
+		f := strings.Fields(val[5:])
+		u, err := strconv.ParseUint(f[0], 10, 64)
+		return u, err == nil
+	}
+	return 0, false
+}
+
+// Values returns the model values of the given terms after a sat Check.
+func (s *Solver) Values(ts []*Term) []uint64 {
+	out := make([]uint64, len(ts))
+	for i, v := range ts {
+		if v.Op == "const" {
+			out[i] = v.C
 			continue
 		}
-		s.send(fmt.Sprintf("(get-value (%s))", v.Name))
-		l := s.readLine()
-		for !strings.HasSuffix(l, "))") {
-			l += s.readLine()
+		if !s.defd[v.id] {
+			continue // never reached the solver: unconstrained, 0 is a model value
 		}
-		// ((name #x...)) or ((name true))
-		i := strings.LastIndex(l, " ")
-		val := strings.TrimSuffix(l[i+1:], "))")
-		switch {
-		case strings.HasPrefix(val, "#x"):
-			u, _ := strconv.ParseUint(val[2:], 16, 64)
-			m[v.Name] = u
-		case strings.HasPrefix(val, "#b"):
-			u, _ := strconv.ParseUint(val[2:], 2, 64)
-			m[v.Name] = u
-		case val == "true":
-			m[v.Name] = 1
-		case val == "false":
-			m[v.Name] = 0
-		default:
-			panic("model parse: " + l)
+		s.send(fmt.Sprintf("(get-value (%s))", v.ref()))
+		l := s.readLine()
+		for strings.Count(l, "(") != strings.Count(l, ")") || l == "" {
+			l += " " + s.readLine()
+		}
+		if strings.HasPrefix(l, "(error") {
+			continue
+		}
+		// ((name value))
+		inner := strings.TrimSuffix(strings.TrimPrefix(l, "(("), "))")
+		i2 := strings.Index(inner, " ")
+		if i2 < 0 {
+			continue
+		}
+		val := strings.TrimSpace(inner[i2+1:])
+		if u, ok := parseVal(val); ok {
+			out[i] = u
 		}
 	}
-	return m
+	return out
 }
 
 func (s *Solver) Close() {
 	s.send("(exit)")
-	s.cmd.Wait()
+	done := make(chan struct{})
+	go func() { s.cmd.Wait(); close(done) }()
+	select {
+	case <-done:
+	case <-time.After(2 * time.Second):
+		s.cmd.Process.Kill()
+	}
 }
